@@ -230,6 +230,7 @@ def normalize(cfg: Dict[str, Any]) -> Dict[str, Any]:
                   "deflabel": bool(r.get("deflabel", False)), "nores": bool(r.get("nores", True))}
     c["vals"] = vals_table()
     c.setdefault("nk", 3)
+    c["shared"] = bool(c.get("shared", False))
     return c
 
 
@@ -275,7 +276,15 @@ def run(scn: Dict[str, Any]) -> List[Dict[str, Any]]:
                 await ctx.requeue()
             return x
 
-        task = b1.register_task(t, task_name="t", **decl)
+        if cfg.get("shared"):
+            # the second kicker() site: a shared task sent through the shared broker's default broker
+            from taskiq.brokers.shared_broker import AsyncSharedBroker
+            shared = AsyncSharedBroker()
+            shared.default_broker(b1)
+            task = shared.register_task(t, task_name="t", **decl)
+            b1.local_task_registry["t"] = task
+        else:
+            task = b1.register_task(t, task_name="t", **decl)
         receiver = Receiver(b1, executor=InlineExecutor(), run_startup=False)
         kickers: Dict[int, Any] = {}
 
